@@ -36,6 +36,7 @@ def ctor_written_members(prog, cls, regmap, scalar):
     from .c14 import ctor_of, init_var_of
     paths = set()
     pointee = {}
+    derived = {}
     for r in prog.base_chain(cls):
         for f in prog.methods_of(r):
             if f.get('ctor'):
@@ -62,12 +63,21 @@ def ctor_written_members(prog, cls, regmap, scalar):
                                                 if mp and mp[0] == 'this':
                                                     pointee[sub] = '.'.join(mp[1:])
                 E = terms.Evaluator(prog, dyn_class=cls, scalar=scalar, regmap=regmap, opaque=('register_var', 'register_vec'))
+                # reads of registered parameters yield a marker symbol, so that what construction derives from them is visible
+                E.freeze = {p_: '@reg:' + p_ for p_ in set(regmap.values())}
                 try:
-                    E.run(f, arg_names=['ctorarg%d' % i for i in range(len(f.params))])
+                    outs = E.run(f, arg_names=['ctorarg%d' % i for i in range(len(f.params))])
                 except RecursionError:
                     raise AnalysisBroken('constructor of %s too deep' % r)
                 paths |= set(E.trace.writes)
-    return paths, pointee
+                for o in outs:
+                    for pth, v in o.mem.items():
+                        if pth in regmap.values():
+                            continue
+                        ds = sorted(x[5:] for x in terms.syms(v) if x.startswith('@reg:'))
+                        if ds:
+                            derived.setdefault(pth, set()).update(ds)
+    return paths, pointee, derived
 
 
 def run(ctx, prog):
@@ -97,7 +107,7 @@ def run(ctx, prog):
                 results[(name, sig)] = (f, E.trace)
                 for pth, locs in E.trace.writes.items():
                     W_all.setdefault(pth, []).append((name, locs[0]))
-            ctor_w, pointee = ctor_written_members(prog, cls, regmap, scalar) if evs else (set(), {})
+            ctor_w, pointee, derived = ctor_written_members(prog, cls, regmap, scalar) if evs else (set(), {}, {})
             for (name, sig), (f, tr) in results.items():
                 n_eval += 1
                 key = '%s::%s|%s|%s' % (short, name, sig.replace(scalar, 'S'), sc)
@@ -124,6 +134,9 @@ def run(ctx, prog):
                         probs.append('reads cached member `%s` at %s before writing it in this call; it is written by %s (%s): value depends on earlier calls' % (pth, loc, w[0], w[1]))
                     elif pth not in ctor_w:
                         probs.append('reads member `%s` at %s which neither this call nor construction assigns' % (pth, loc))
+                    elif pth in derived:
+                        probs.append('reads member `%s` at %s, which only construction / masa_init_param computes, from the parameters %s: after masa_set_param it is stale' % (
+                            pth, loc, sorted(derived[pth])[:4]))
                 ctx.ob('C10.P2', key, not probs, f.where, '; '.join(probs[:3]),
                        sample='%s: %d members read on entry, all registered or construction-time constants; %d cached members rewritten before use' % (
                            key, len(tr.pre_reads), len([w for w in tr.writes if w not in regpaths])),
